@@ -4,7 +4,19 @@
 # nshards-th seed is run (several shards can run side by side, each on its own worktree); the last step merges out/reseed_*.log
 # into tools/reseed_last.log when all shards are done:  tools/reseed_all.sh merge
 cd /verif
-if [ "$1" = merge ]; then cat out/reseed_shard*.log | sort > tools/reseed_last.log; wc -l tools/reseed_last.log; exit 0; fi
+if [ "$1" = merge ]; then cat out/reseed_shard*.log | awk '{a[$1]=$0} END{for(k in a) print a[k]}' | sort > tools/reseed_last.log; wc -l tools/reseed_last.log; exit 0; fi
+if [ "$1" = one ]; then   # tools/reseed_all.sh one <seed-id>... : re-run single seeds (results override earlier lines at merge: shard 9)
+  shift; W=/tmp/wt_reseed_9; git -C /repo worktree remove --force $W 2>/dev/null; git -C /repo worktree add --detach -q $W HEAD || exit 2
+  mkdir -p out/reseed_evidence_9
+  for id in "$@"; do
+    d=seeded/$id; prop=$(python3 -c "import json; print(json.load(open('$d/meta.json'))['property'])")
+    (cd $W && git apply /verif/$d/patch.diff) || { echo "$id $prop PATCH-DOES-NOT-APPLY" >> out/reseed_shard9.log; continue; }
+    VERIF_REPO=$W VERIF_EVIDENCE_DIR=/verif/out/reseed_evidence_9 ./check $prop > out/reseed_run_9.log 2>&1; rc=$?
+    echo "$id $prop rc=$rc violations=$(grep -c '^VIOLATION' out/reseed_run_9.log) $(grep '^VIOLATION' -A1 out/reseed_run_9.log | grep clause= | sed 's/^ *//' | cut -c1-70 | sort | uniq -c | sort -rn | head -1)" >> out/reseed_shard9.log
+    git -C $W checkout -q -- . ; git -C $W clean -fdq
+  done
+  git -C /repo worktree remove --force $W; exit 0
+fi
 S=${1:-0}; N=${2:-1}
 W=/tmp/wt_reseed_$S
 git -C /repo worktree remove --force $W 2>/dev/null
